@@ -150,7 +150,7 @@ def check_C17(c):
     res = tlc.run_tlc('Purity', cfg='PurityX.cfg', workers=1, heap='4g', simulate='num=%d' % _q(c, 260, 6500),
                       extra=['-depth', '11', '-seed', str(c.seed + 3)], tag='Purity_sim')
     hs = {}
-    for line in res['out'].splitlines():
+    for line in res['out'].split('\n'):
         m = tlc._EXPORT.match(line.strip())
         if m:
             h = json.loads(tlc._unquote(m.group(1)))
@@ -163,7 +163,7 @@ def check_C17(c):
     # directed histories (Purity!DSpec, enumerated completely): a derived graph meets its source as the other operand
     dres = tlc.run_tlc('Purity', cfg='PurityD.cfg', workers=4, heap='4g', tag='Purity_directed')
     dh = {}
-    for line in dres['out'].splitlines():
+    for line in dres['out'].split('\n'):
         m = tlc._EXPORT.match(line.strip())
         if m:
             h = json.loads(tlc._unquote(m.group(1)))
@@ -191,7 +191,8 @@ def check_C17(c):
     traces = []
     for i, h in enumerate(hist):
         traces.append({'kind': 'purity', 'hist': h['hist'], 'pool_seed': h['pool_seed'],
-                       'runs': [{'env': envs[r][0], 'exc': '', 'steps': logs[r][i]} for r in range(len(envs))]})
+                       'runs': [{'env': envs[r][0], 'exc': logs[r][i]['exc'], 'steps': []} if isinstance(logs[r][i], dict)
+                                else {'env': envs[r][0], 'exc': '', 'steps': logs[r][i]} for r in range(len(envs))]})
     # the command under several hash seeds
     import penman
     texts = _graph_texts(c, 12) + ['(a / alpha :poss (b / beta) :beneficiary (c / gamma :poss a))',
